@@ -250,6 +250,10 @@ impl Prop for C01 {
         let t = sample(&gen::tape_strategy(12), r);
         if t.first().map(|x| x % 3 == 0).unwrap_or(false) {
             gen::duplicate_rules(&mut spec, t.get(1..).unwrap_or(&[]));
+        } else if t.first().map(|x| x % 3 == 1).unwrap_or(false) {
+            // keywords: a longer keyword first, a general rule, a shorter keyword that is a
+            // prefix of the first one (ties with the general rule must go to the general rule)
+            gen::keyword_prefixes(&mut spec, t.get(1..).unwrap_or(&[]), &ABC);
         }
         spec
     }
@@ -519,7 +523,10 @@ impl Prop for C05 {
                 t.a.after_none
             ));
         }
-        let whole = first_invalid_is_final_eoi(model);
+        // The whole stream is compared when the first failure involves end-of-input (the error of
+        // a non-Init rule set at a lexeme boundary, or a lexeme cut short by the end of the
+        // input): nothing may follow it. Otherwise up to the first failure.
+        let whole = first_invalid_is_final_eoi(model) || model.facts.first_invalid_at_eoi;
         let facet = Facet {
             upto_first_invalid: !whole,
             ..Facet::TOKENS
@@ -695,7 +702,13 @@ impl Prop for C07 {
         c.name = "ctx-fallible";
         c.kinds = KindMix::mixed();
         c.kinds.ferr = 2;
-        vec![(f, tier.pick(220, 2500)), (c, tier.pick(100, 1200))]
+        let mut d = p_actions();
+        d.name = "fallible-classes";
+        d.re.w_diff = 4;
+        d.re.w_any = 3;
+        d.re.w_set = 5;
+        d.kinds.fscript = 4;
+        vec![(f, tier.pick(200, 2500)), (c, tier.pick(80, 1200)), (d, tier.pick(60, 800))]
     }
     fn cases(&self, ctx: &SpecCtx, _c: &mut Compiled, r: &mut TestRunner, tier: Tier) -> Vec<Case> {
         cases_from(ctx, r, &std_plan(tier, true))
